@@ -8,6 +8,8 @@ import PestModel.State
 import PestModel.Drv.Core
 import PestModel.Drv.Text
 import PestModel.Drv.Pratt
+import PestModel.Drv.World
+import PestModel.Drv.CharSet
 
 open Pest
 
@@ -125,7 +127,13 @@ def handle (sess : Session) (line : String) : Session × String :=
       | none =>
         match handlePratt toks with
         | some r => (sess, r)
-        | none => (sess, "bad-request:" ++ cmd)
+        | none =>
+          match handleWorld toks with
+          | some r => (sess, r)
+          | none =>
+            match handleCharSet toks with
+            | some r => (sess, r)
+            | none => (sess, "bad-request:" ++ cmd)
 
 end Drv
 
